@@ -207,6 +207,8 @@ for t in TYPES:
         qq = "quick" if (t in ("bool", "int64", "str") and wt in ("bool", "int64", "str")) else "thorough"
         ob("attr.tree.typed.%s.get_%s" % (t, wt), "attr/tree.c", ["-DOP_TYPED", "-DATYPE=xcm_attr_type_" + t, "-DWHICH=%d" % w] + (["-DMATCH"] if t == wt else []), ["C10"], unwind=16, tier=qq,
            desc="xcm_attr_get_%s on a %s attribute into an object of exactly the getter's size: no overflow, ENOENT on type mismatch" % (wt, t))
+        ob("attr.tree.typed.%s.getf_%s" % (t, wt), "attr/tree.c", ["-DOP_TYPED", "-DFMT", "-DATYPE=xcm_attr_type_" + t, "-DWHICH=%d" % w] + (["-DMATCH"] if t == wt else []), ["C10"], unwind=16, tier=qq,
+           desc="xcm_attr_getf_%s (formatted-name variant) on a %s attribute into an object of exactly the getter's size: no overflow, ENOENT on type mismatch" % (wt, t))
 PROPERTY_META["C10"] = {
     "assumptions": ["framework half: the real xcm.c/attr_tree.c/attr_node.c/attr_path.c over a 3-node tree with worst-case mock getters (fixed-size getters ignore the capacity, as several real ones do)",
                     "attr_node.c is compiled with its anonymous union turned into a struct (CBMC 6.11 loses writes through a pointer into a union member; reproducer in DESIGN.md)",
